@@ -17,6 +17,7 @@ quantities of `binNumeric`) live in `MD/Proofs/TableLemmas.lean`. -/
 
 set_option linter.unusedSectionVars false
 set_option linter.unusedVariables false
+set_option linter.deprecated false
 
 namespace MD.Props
 variable {K : Type} [Field K] [LinearOrder K] [IsStrictOrderedRing K]
@@ -206,5 +207,77 @@ theorem C13_all_null (m : BinMethod) (nBins : Nat) (given : List K) (feature : L
   rw [tbl_binNumeric_bins, List.mem_map] at ho
   obtain ⟨c, hc, rfl⟩ := ho
   simp [h c hc]
+
+/-! ## string-like features (`Utf8`, `Categorical`, `Enum`)
+
+`enumOrder = none`: natural order = string order, existing values = the real values of the column;
+`enumOrder = some cats`: natural order = position in `cats`, existing values = `cats`.
+Auxiliary names (let-bound quantities of `binString`): `tbl_sHasNulls`, `tbl_sNBinsEf`, `tbl_vc`
+(sorted value counts), `tbl_keep` (kept categories), `tbl_nRemaining`, `tbl_existing`, `tbl_name`. -/
+
+/-- every row gets exactly one label -/
+theorem C13_str_total (enumOrder : Option (List String)) (nBins : Nat) (feature : List (Option String)) :
+    (binString enumOrder nBins feature).bins.length = feature.length := by
+  rw [tbl_binString_eq]
+  split <;> simp
+
+/-- the label is null iff the value is null -/
+theorem C13_str_null_bin (enumOrder : Option (List String)) (nBins : Nat) (feature : List (Option String))
+    (r : Nat) (v : Option String) (hv : feature[r]? = some v) :
+    (binString enumOrder nBins feature).bins[r]? = some none ↔ v = none := by
+  rw [tbl_bins_row_str, hv]
+  split
+  · simp
+  · cases v <;> simp
+
+/-- every non-null row keeps its own value or gets the pooled name -/
+theorem C13_str_kept_or_pooled (enumOrder : Option (List String)) (nBins : Nat)
+    (feature : List (Option String)) (r : Nat) (s : String) (hs : feature[r]? = some (some s)) :
+    (binString enumOrder nBins feature).bins[r]? = some (some s) ∨
+    (s ∉ tbl_keep enumOrder nBins feature ∧
+     (binString enumOrder nBins feature).pooled = some (tbl_name enumOrder nBins feature) ∧
+     (binString enumOrder nBins feature).bins[r]? = some (some (tbl_name enumOrder nBins feature))) := by
+  rw [tbl_bins_row_str, tbl_pooled_str, hs]
+  by_cases h : tbl_sNBinsEf nBins feature ≥ (tbl_vc enumOrder feature).length
+  · left; rw [if_pos h]
+  · rw [if_neg h, if_neg h]
+    by_cases hk : s ∈ tbl_keep enumOrder nBins feature
+    · left; simp [hk]
+    · right
+      exact ⟨hk, rfl, by simp [hk]⟩
+
+/-- the real values of the column are among the "existing values" the fresh name avoids:
+automatic for `Utf8`/`Categorical` columns; for an `Enum` column it says that the values are
+declared categories (a polars invariant) -/
+def C13_valuesDeclared (enumOrder : Option (List String)) (feature : List (Option String)) : Prop :=
+  ∀ s, some s ∈ feature → s ∈ tbl_existing enumOrder feature
+
+theorem C13_valuesDeclared_none (feature : List (Option String)) : C13_valuesDeclared none feature :=
+  fun s hs => (tbl_mem_distinctVals feature s).2 hs
+
+/-- a row keeps its value iff nothing is pooled or the value is one of the kept categories -/
+theorem C13_str_kept_iff (enumOrder : Option (List String)) (nBins : Nat)
+    (feature : List (Option String)) (hdecl : C13_valuesDeclared enumOrder feature)
+    (r : Nat) (s : String) (hs : feature[r]? = some (some s)) :
+    (binString enumOrder nBins feature).bins[r]? = some (some s) ↔
+      ((binString enumOrder nBins feature).pooled = none ∨ s ∈ tbl_keep enumOrder nBins feature) := by
+  rw [tbl_bins_row_str, tbl_pooled_str, hs]
+  by_cases h : tbl_sNBinsEf nBins feature ≥ (tbl_vc enumOrder feature).length
+  · rw [if_pos h, if_pos h]; simp
+  · rw [if_neg h, if_neg h]
+    have hne : tbl_name enumOrder nBins feature ≠ s := by
+      intro he
+      apply tbl_name_not_mem enumOrder nBins feature
+      rw [he]
+      exact hdecl s (List.mem_of_getElem? hs)
+    by_cases hk : s ∈ tbl_keep enumOrder nBins feature
+    · simp [hk]
+    · simp [hk, hne]
+
+/-- rows with equal values get equal labels -/
+theorem C13_str_equal_share (enumOrder : Option (List String)) (nBins : Nat)
+    (feature : List (Option String)) (r r' : Nat) (h : feature[r]? = feature[r']?) :
+    (binString enumOrder nBins feature).bins[r]? = (binString enumOrder nBins feature).bins[r']? := by
+  rw [tbl_bins_row_str, tbl_bins_row_str, h]
 
 end MD.Props
